@@ -49,6 +49,21 @@ func sameField(f common.C15Field) bool {
 	return f.Dest == f.Src || strings.HasSuffix(f.Dest, "."+f.Src) || strings.HasSuffix(f.Src, "."+f.Dest)
 }
 
+func codecName(c string) string {
+	if c == "" {
+		return "none"
+	}
+	return c
+}
+
+func lpairs(l [][2]string) string {
+	var o []string
+	for _, p := range l {
+		o = append(o, fmt.Sprintf("(%q, %q)", p[0], p[1]))
+	}
+	return "[" + strings.Join(o, ", ") + "]"
+}
+
 func lbool(b bool) string {
 	if b {
 		return "true"
@@ -196,8 +211,8 @@ func main() {
 			if i == len(s.Fields)-1 {
 				sep = ""
 			}
-			fmt.Fprintf(&b, "  { sec := %q, path := %q, key := %q, env := %q, ty := .%s, omitEmpty := %s, hidden := %s, sameField := %s, load := .%s, save := .%s, dflt := %s, omitC := %s, rej := [%s] }%s\n",
-				s.Name, f.JSONPath(), f.Path[len(f.Path)-1], f.EnvName(s.EnvPrefix), f.Ty, lbool(f.OmitEmpty), lbool(f.Hidden), lbool(sameField(f)), f.Load, f.Save, lconst(f.Default), lconst(f.OmitConst), strings.Join(rej, ", "), sep)
+			fmt.Fprintf(&b, "  { sec := %q, path := %q, key := %q, env := %q, ty := .%s, omitEmpty := %s, hidden := %s, sameField := %s, load := .%s, save := .%s, dflt := %s, omitC := %s, rej := [%s], codec := .%s, hiddenNested := %s }%s\n",
+				s.Name, f.JSONPath(), f.Path[len(f.Path)-1], f.EnvName(s.EnvPrefix), f.Ty, lbool(f.OmitEmpty), lbool(f.Hidden), lbool(sameField(f)), f.Load, f.Save, lconst(f.Default), lconst(f.OmitConst), strings.Join(rej, ", "), codecName(f.Codec), lbool(f.HiddenNested), sep)
 		}
 		b.WriteString("]\n\n")
 	}
@@ -219,6 +234,24 @@ func main() {
 			s.Name, s.EnvPrefix, lbool(fc.endsValidate), lbool(fc.startsDefault), len(s.Validate), nop, sep)
 	}
 	b.WriteString("]\n\n")
+	b.WriteString("/-- enumerations: the load `switch` (JSON text, constant) and the `String()` method (constant, JSON text) -/\ndef enums : List (String × List (String × String) × List (String × String)) := [\n")
+	first := true
+	for _, s := range secs {
+		if len(s.EnumLoad) == 0 {
+			continue
+		}
+		if !first {
+			b.WriteString(",\n")
+		}
+		first = false
+		fmt.Fprintf(&b, "  (%q, %s, %s)", s.Name, lpairs(s.EnumLoad), lpairs(s.EnumSave))
+	}
+	b.WriteString("\n]\n\n")
+	var lens []string
+	for _, n := range common.C15SecretLens(repo) {
+		lens = append(lens, strconv.Itoa(n))
+	}
+	fmt.Fprintf(&b, "/-- byte lengths DecodeClusterSecret accepts after hex decoding (0 = no secret) -/\ndef secretLens : List Nat := [%s]\n\n", strings.Join(lens, ", "))
 	fmt.Fprintf(&b, "/-- config.DisplayJSON replaces every field tagged hidden:\"true\" by a constant -/\ndef displayReplacesHidden : Bool := %s\n\n", lbool(hid))
 	fmt.Fprintf(&b, "/-- config.Manager.LoadJSON ends with `return cfg.Validate()` -/\ndef managerLoadEndsWithValidate : Bool := %s\n\n", lbool(mgrValidates))
 	b.WriteString("end CV.C15.Gen\n")
